@@ -167,6 +167,13 @@ class Impl:
 
         def rename(a, b, *x, **k):
             snap("before")
+            # fault leg: the k-th publishing rename (tmp.<name> -> <name> under the destination) fails once
+            if getattr(impl, "fail_publish_at", 0) and str(b).startswith(impl.dest + os.sep) and \
+                    os.path.basename(str(a)).startswith("tmp."):
+                impl.publish_count = getattr(impl, "publish_count", 0) + 1
+                if impl.publish_count == impl.fail_publish_at:
+                    impl.log.append(("rename-failed", a, b))
+                    raise OSError(errno.ENOSPC, "No space left on device (injected)", b)
             r = real["rename"](a, b, *x, **k)
             impl.log.append(("rename", a, b))
             snap("after")
@@ -941,6 +948,39 @@ def handler_table_leg(res):
                          {"method": cfg[0], "link": cfg[1], "include_drf": cfg[2], "include_dmd": cfg[3]}, row, got)
 
 
+def fault_leg(res):
+    """move mode, one publishing rename (tmp.<name> -> <name> under the destination) fails: whatever the mirror does
+    about it, an intact copy of every data file exists in the source or under the destination at every moment, and
+    nothing incomplete appears under a final name (the two snapshot oracles; the rest of the final state is not
+    claimed under a fault, and the model is not consulted)"""
+    import sys as _sys
+    rng = res.rng
+    impl = Impl(False)
+    for h in range(12 if res.tier == "quick" else 150):
+        evs = gen_history(rng, 1, 30, reorder=(h % 3 != 0))
+        impl.fail_publish_at = rng.randrange(1, 8)
+        impl.publish_count = 0
+        se = _sys.stderr
+        _sys.stderr = open(os.devnull, "w")          # the mirror prints the traceback of the failed rename
+        try:
+            groups, states, viols = run_history(impl, 1, evs, flags=(True, True))
+        finally:
+            _sys.stderr.close()
+            _sys.stderr = se
+        fired = impl.publish_count >= impl.fail_publish_at
+        k = impl.fail_publish_at
+        impl.fail_publish_at = 0
+        res.count("fault-leg:publishing-rename-failed" if fired else "fault-leg:history-too-short")
+        res.case(("fault", h, k), nontrivial=fired)
+        for i, v in viols:
+            sig, title, exp, obs = v
+            if sig in ("move-loses-data-file", "partial-file-under-final-name"):
+                res.violation(sig, title + " (after a failed publishing rename)",
+                              {"meth": 1, "cross_fs": False, "flags": [True, True], "events": [list(e) for e in evs],
+                               "failing_event": i, "fail_publish_at": k,
+                               "source_through_symlink": isinstance(obs, dict) and bool(obs.get("source_through_symlink"))}, exp, obs)
+
+
 def run(res):
     try:
         _run(res)
@@ -1003,6 +1043,7 @@ def _run(res):
     if vm != ex:
         res.disagree("extracted OCaml vs vm_compute (mirror runner)", None, None, None)
     handler_table_leg(res)
+    fault_leg(res)
     res.extra["traces_validated_against_impl"] = res.dist.get("fs-operations-traced", 0)
     res.assumptions += [
         "os.rename and os.link are atomic; shutil.copy2 writes the destination name before the content is complete (traced: copyfile is replaced by a two-chunk copy to observe the middle)",
@@ -1023,10 +1064,16 @@ def replay(res, rp):
         return 1 if res.violations else 0
     impl = Impl(bool(i.get("cross_fs")))
     impl.force_symlink = bool(i.get("source_through_symlink"))
+    impl.fail_publish_at = int(i.get("fail_publish_at") or 0)
+    impl.publish_count = 0
+    if impl.fail_publish_at:
+        print("publishing rename number %d under the destination fails with ENOSPC" % impl.fail_publish_at)
     if impl.force_symlink:
         print("the source directory is reached through a symbolic link")
     evs = [tuple(tuple(x) if isinstance(x, list) else x for x in e) for e in i["events"]]
     groups, states, viols = run_history(impl, i["meth"], evs, flags=flags)
+    if impl.fail_publish_at:
+        viols = [(k, v) for k, v in viols if v[0] in ("move-loses-data-file", "partial-file-under-final-name")]
     print("method", METH[i["meth"]], "include_drf", flags[0], "include_dmd", flags[1])
     for k, (e, st) in enumerate(zip(evs, states)):
         print("event", k, e, "->", st["fsops"])
